@@ -72,6 +72,7 @@ type interpreter struct {
 	ufApps      []ufApp
 	collisionFree bool
 	czCount     int
+	opaqueAlloc bool
 }
 
 type deferred struct {
@@ -385,6 +386,11 @@ func call(i *interpreter, caller *frame, callpos token.Pos, fn value, args []val
 	case *ssa.Builtin:
 		return callBuiltin(i, caller, fn, args)
 	case *nativeFn:
+		for k, a := range args {
+			if o, ok := a.(*oslice); ok {
+				args[k] = i.materialize(o)
+			}
+		}
 		return fn.recv.callMethod(i, fn.name, args[1:])
 	case goFunc:
 		return fn(i, args)
@@ -428,6 +434,11 @@ func callSSA(i *interpreter, caller *frame, callpos token.Pos, fn *ssa.Function,
 			i.ensureInit(p)
 		}
 		if ext := i.lookupExternal(fn); ext != nil {
+			for k, a := range args {
+				if o, ok := a.(*oslice); ok {
+					args[k] = i.materialize(o)
+				}
+			}
 			return ext(fr, args)
 		}
 		if fn.Blocks == nil {
